@@ -13,8 +13,27 @@ LEAN = os.path.join(os.path.dirname(os.path.dirname(os.path.abspath(__file__))),
 P = os.path.join(LEAN, "BlockCiphers", "Proofs")
 
 
+def ns_stack(src, pos):
+    ns = []
+    for l in src[:pos].split("\n"):
+        mm = re.match(r"^namespace\s+(\S+)", l)
+        if mm:
+            ns.append(mm.group(1))
+        mm = re.match(r"^end\s+(\S+)", l)
+        if mm and ns and ns[-1] == mm.group(1):
+            ns.pop()
+    return ns
+
+
 def find_theorem(src, name):
     m = re.search(r"^(?:@\[[^\]]*\]\s*)?theorem\s+" + re.escape(name) + r"(?![\w'.])", src, re.M)
+    if not m and "." in name:
+        # qualified name: `Soft.encrypt_eq_spec` = theorem `encrypt_eq_spec` declared inside `namespace Soft`
+        qual, base = name.rsplit(".", 1)
+        for mm in re.finditer(r"^(?:@\[[^\]]*\]\s*)?theorem\s+" + re.escape(base) + r"(?![\w'.])", src, re.M):
+            if ".".join(ns_stack(src, mm.start())).endswith(qual):
+                m = mm
+                break
     if not m:
         return None
     # signature up to the first ':=' at bracket depth 0
@@ -135,7 +154,8 @@ def gen(pid, title, entries, imports, extra_header="", extra_body=""):
             for o in t["openin"]:
                 out.append(o)
             args = " ".join(explicit_args(t["sig"]))
-            fq = "_root_." + (ns + "." if ns else "") + name
+            declared = name if re.search(r"theorem\s+" + re.escape(name) + r"(?![\w'.])", src) else name.rsplit(".", 1)[1]
+            fq = "_root_." + (ns + "." if ns else "") + declared
             out.append(f"theorem {pid}.{alias}{t['sig']} :=\n  {fq} {args}".rstrip())
             if ns:
                 out.append(f"end {ns}")
